@@ -188,7 +188,7 @@ def pid_num(name):
 
 
 DEV_PIDS = ['objectName', 'vendorIdentifier', 'maxApduLengthAccepted', 'segmentationSupported', 'apduTimeout',
-            'numberOfApduRetries', 'vendorName', 'description', 'location', 'databaseRevision']
+            'numberOfApduRetries', 'vendorName', 'description', 'location', 'databaseRevision', 'objectList']
 _BUILT = {}
 
 
